@@ -1,4 +1,5 @@
 """Turns tasks (function under contract / lemma / structural) into obligations."""
+import os
 import traceback
 
 import z3
@@ -120,7 +121,7 @@ def verify_function(task):
             return res
         except (KeyError, AttributeError, TypeError, IndexError) as u:
             res.undecided = f"{qual}: executor could not interpret the body ({type(u).__name__}: {u}); " + \
-                traceback.format_exc().strip().split("\n")[-3].strip()
+                (traceback.format_exc() if os.environ.get("PYVC_TRACE") else traceback.format_exc().strip().split("\n")[-3].strip())
             return res
     return res
 
